@@ -76,7 +76,12 @@ void remove_duplicate_include()
                   {
                      Chunk::Delete(comment);
                   }
-                  Chunk::Delete(eol);
+
+                  // the last line of a file may end without a newline
+                  if (eol->IsNotNullChunk())
+                  {
+                     Chunk::Delete(eol);
+                  }
                   break;
                }
                else
